@@ -8,6 +8,6 @@ CONSTANTS MaxDepth = 0
           CbBelow = 1
           AuxDepth = 0
           Lean = TRUE
-          Repaired = {1, 2, 4, 5, 7, 9, 10, 11}
+          Repaired = {1, 2, 4, 5, 7, 9, 10, 11, 12, 13, 14, 16}
 INVARIANTS DAndEmit EmitOpts
 CHECK_DEADLOCK FALSE
